@@ -472,7 +472,7 @@ static int create_synth(struct context_data *ctx, char *desc, size_t dsz)
 		mod->xxi[i].sub[0].vol = vrng_chance(80) ? 0x40 : vrng_below(65);
 		mod->xxi[i].sub[0].sid = i;
 		if (quirk & QUIRK_VIRTUAL) {
-			mod->xxi[i].sub[0].nna = vrng_below(4);
+			mod->xxi[i].sub[0].nna = vrng_chance(70) ? vrng_range(1, 3) : 0;	/* mostly continue/off/fade: background voices */
 			mod->xxi[i].sub[0].dct = vrng_below(4);
 			mod->xxi[i].sub[0].dca = vrng_chance(50) ? 0 : vrng_range(2, 3);
 		}
@@ -481,7 +481,7 @@ static int create_synth(struct context_data *ctx, char *desc, size_t dsz)
 		mod->xxs[i].len = vrng_chance(50) ? 10000 : vrng_range(16, 3000);
 		mod->xxs[i].lps = 0;
 		mod->xxs[i].lpe = mod->xxs[i].len;
-		mod->xxs[i].flg = vrng_chance(60) ? XMP_SAMPLE_LOOP : 0;
+		mod->xxs[i].flg = vrng_chance((quirk & QUIRK_VIRTUAL) ? 85 : 60) ? XMP_SAMPLE_LOOP : 0;
 		mod->xxs[i].data = (unsigned char *)calloc(1, mod->xxs[i].len + 16);
 		if (mod->xxs[i].data == NULL)
 			return -1;
@@ -489,7 +489,7 @@ static int create_synth(struct context_data *ctx, char *desc, size_t dsz)
 			mod->xxs[i].data[4 + k] = (unsigned char)((k * 37) & 0x7f);
 		mod->xxs[i].data += 4;
 	}
-	density = vrng_range(2, 25);
+	density = vrng_range((quirk & QUIRK_VIRTUAL) ? 10 : 2, 25);
 	for (i = 0; i < mod->pat; i++) {
 		for (j = 0; j < mod->chn; j++) {
 			struct xmp_track *t = mod->xxt[mod->xxp[i]->index[j]];
